@@ -56,6 +56,7 @@ var atoms = []atom{
 	{"Z", map[string]string{"sub.yaml": pkgw.WidgetYAML("Gadget", "z", "p3", "1", nil)}, []doc{{Path: "sub.yaml", Name: "z", Phase: "p3"}}},
 	bigAtom(),
 	longLineAtom(),
+	giantAtom(),
 	// a helper defined in an ordinary template file (no leading underscore) and used from a file
 	// that sorts before it
 	{"D", map[string]string{
@@ -73,6 +74,21 @@ func longLineAtom() atom {
 	}
 	return atom{ID: "K", Files: map[string]string{"long.yaml": mk("k1", "short") + "---\n" + mk("k2", long) + "---\n" + mk("k3", "short")},
 		Docs: []doc{{Path: "long.yaml", Index: 0, Name: "k1", Phase: "p2"}, {Path: "long.yaml", Index: 1, Name: "k2", Phase: "p2"}, {Path: "long.yaml", Index: 2, Name: "k3", Phase: "p2"}}}
+}
+
+// giantAtom: one multi-document file with five objects of ~300 KiB each in one phase - together
+// beyond the 1 MiB limit under which the deployer keeps a phase inline, so that the rendered
+// phase reaches the cluster spread over several ObjectSlices.
+func giantAtom() atom {
+	a := atom{ID: "G", Files: map[string]string{}}
+	var parts []string
+	for d := 0; d < 5; d++ {
+		name := fmt.Sprintf("giant-%d", d)
+		parts = append(parts, pkgw.WidgetYAML("Widget", name, "p2", "1\n  blob: "+strings.Repeat("g", 300<<10), nil))
+		a.Docs = append(a.Docs, doc{Path: "giant.yaml", Index: d, Name: name, Phase: "p2"})
+	}
+	a.Files["giant.yaml"] = strings.Join(parts, "---\n")
+	return a
 }
 
 // bigAtom: five files with three documents each (15 objects, above the small-slice thresholds
@@ -250,7 +266,7 @@ func packages(quick bool) []Pkg {
 		}
 	}
 	rec(0, "")
-	subsets = append(subsets, "B", "BM", "BATX", "D", "DH", "DAM", "DTC", "K", "KA")
+	subsets = append(subsets, "B", "BM", "BATX", "D", "DH", "DAM", "DTC", "K", "KA", "G", "GMX")
 	if !quick {
 		subsets = append(subsets, ids, "AMTHCL", "MNXZCL", "ATHRNXZ", "B"+ids)
 	}
